@@ -378,6 +378,12 @@ func runC07(c *Ctx) {
 		})
 	}
 	c.Check(cyc, r2, "cycle-validator", FirstPos(p, lp.Load), "a registered validator reports cycles as errors", "no registered validator turns a dependency cycle into an error")
+	// every process and every dependency is examined: the validators' iterations end by exhaustion or by returning
+	// an error, never by a break
+	for _, v := range lp.Validators {
+		ex := EarlyLoopExits(p, v, true)
+		c.Check(len(ex) == 0, r2, "exhaustive:"+p.FuncKey(v), FirstPos(p, v), "iterations run to exhaustion", "a validator leaves an iteration over the processes or their dependencies early ("+strings.Join(ex, ", ")+"): the entries after that point are accepted unchecked")
+	}
 
 	// ------------------------------------------------------------------ (3)
 	s.checkPostorder(c, "traversal-postorder")
